@@ -4,7 +4,7 @@ that is removed on exit; only small derived fact files are kept in a content-add
 (/verif/.factcache/<sha256 of every input byte>/), so that the 18 checks share one extraction when
 the tree has not changed between them.  A changed byte anywhere under /repo/lib, /repo/cmake or
 /repo/CMakeLists.txt, or in the extractor itself, misses the cache."""
-import atexit, hashlib, json, os, pickle, shlex, shutil, subprocess, sys, tempfile, time
+import re, atexit, hashlib, json, os, pickle, shlex, shutil, subprocess, sys, tempfile, time
 from concurrent.futures import ThreadPoolExecutor
 
 REPO = os.environ.get('IMBV_REPO', '/repo')
@@ -322,6 +322,70 @@ def build_asm_objects(extra_undef=(), tag='asm'):
 
     with ThreadPoolExecutor(NPROC) as ex:
         return dict(ex.map(one, ents))
+
+
+_INC_RE = re.compile(r'^\s*%\s*include\s+"([^"]+)"', re.M | re.I)
+_dep_memo = {}
+
+
+def asm_source_key(e):
+    """key of one NASM unit: its flags and the contents of the unit and of every file it (transitively, under any condition)
+    %includes, addressed relative to the tree — identical keys assemble to identical code wherever the tree lies"""
+    incdirs = [a[2:] for a in e['args'] if a.startswith('-I')]
+    seen = {}
+    st = [e['file']]
+    while st:
+        p = st.pop()
+        if p in seen:
+            continue
+        try:
+            if p not in _dep_memo:
+                with open(p, 'r', errors='replace') as f:
+                    txt = f.read()
+                _dep_memo[p] = (hashlib.sha256(txt.encode('utf-8', 'replace')).hexdigest(), _INC_RE.findall(txt))
+        except OSError:
+            seen[p] = 'missing'
+            continue
+        h, incs = _dep_memo[p]
+        seen[p] = h
+        for inc in incs:
+            for d in [os.path.dirname(p)] + incdirs:
+                q = os.path.normpath(os.path.join(d, inc))
+                if os.path.exists(q):
+                    st.append(q)
+                    break
+    h = hashlib.sha256()
+    flags = [a.replace(REPO, '$R') for a in e['args'][:-1] if not a.endswith('.o')]
+    h.update(repr(flags).encode())
+    for p in sorted(seen):
+        h.update((os.path.relpath(p, REPO) + ':' + seen[p] + '\n').encode())
+    return h.hexdigest()[:32]
+
+
+def assemble(entries, tag='asm'):
+    """assemble the given DB entries into scratch; returns {src: obj}"""
+    outdir = os.path.join(scratch(), 'obj_' + tag)
+    os.makedirs(outdir, exist_ok=True)
+
+    def one(e):
+        out = os.path.join(outdir, _tu_key(e['file']) + '.o')
+        args = []
+        skip = False
+        for a in e['args']:
+            if skip:
+                skip = False
+                continue
+            if a == '-o':
+                skip = True
+                continue
+            args.append(a)
+        cmd = args[:-1] + ['-o', out, args[-1]]
+        r = run(cmd)
+        if r.returncode != 0:
+            raise AnalysisBroken('nasm failed on %s: %s' % (e['file'], r.stderr[-800:]))
+        return e['file'], out
+    with ThreadPoolExecutor(NPROC) as ex:
+        return dict(ex.map(one, entries))
 
 
 def build_c_objects(tag='cobj'):
